@@ -3,13 +3,16 @@ import os, re, subprocess, itertools
 import vlib, typingfix as tf
 
 XML = '''<?xml version="1.0" encoding="utf-8"?>
-<nta><declaration>clock x, y; int i, j; double d, e; bool b, c;</declaration>
+<nta><declaration>clock x, y; int i, j; double d, e; bool b, c; dynamic DT(const int di);</declaration>
+<template><name>DT</name><parameter>const int di</parameter><location id="idd"/><init ref="idd"/></template>
 <template><name>T</name><location id="id0"><label kind="invariant">%s</label></location><location id="id1"/><init ref="id0"/>
 <transition><source ref="id0"/><target ref="id1"/><label kind="guard">%s</label></transition></template>
 <system>system T;</system></nta>'''
+XML_OLD = XML.replace(' dynamic DT(const int di);', '').replace('<template><name>DT</name><parameter>const int di</parameter><location id="idd"/><init ref="idd"/></template>\n', '')      # the 3.x syntax has no dynamic templates
 # the same guard on the other kinds of edges: one that leaves a branchpoint, and an uncontrollable edge with a select and a synchronisation
 XML_B = '''<?xml version="1.0" encoding="utf-8"?>
-<nta><declaration>clock x, y; int i, j; double d, e; bool b, c; chan ch;</declaration>
+<nta><declaration>clock x, y; int i, j; double d, e; bool b, c; chan ch; dynamic DT(const int di);</declaration>
+<template><name>DT</name><parameter>const int di</parameter><location id="idd"/><init ref="idd"/></template>
 <template><name>T</name><location id="id0"/><location id="id1"/><branchpoint id="id2"/><init ref="id0"/>
 <transition><source ref="id0"/><target ref="id2"/></transition>
 <transition><source ref="id2"/><target ref="id1"/><label kind="guard">%s</label><label kind="probability">2</label></transition>
@@ -17,7 +20,8 @@ XML_B = '''<?xml version="1.0" encoding="utf-8"?>
 <system>system T;</system></nta>'''
 # ... and as the invariant of an urgent and of a committed location
 XML_F = '''<?xml version="1.0" encoding="utf-8"?>
-<nta><declaration>clock x, y; int i, j; double d, e; bool b, c;</declaration>
+<nta><declaration>clock x, y; int i, j; double d, e; bool b, c; dynamic DT(const int di);</declaration>
+<template><name>DT</name><parameter>const int di</parameter><location id="idd"/><init ref="idd"/></template>
 <template><name>T</name><location id="id0"><label kind="invariant">%s</label>%s</location><location id="id1"/><init ref="id0"/>
 <transition><source ref="id0"/><target ref="id1"/></transition></template>
 <system>system T;</system></nta>'''
@@ -27,7 +31,7 @@ OPND = {'i': ['i', '3', 'j + 1'], 'd': ['d', '1.5'], 'x': ['x', 'y'], 'xy': ['x 
 
 # the language's precedence of the connectives (the operator table of the documentation; OpTableRef.v): quantifiers bind weakest, then || or xor imply (one
 # level, left), then && and, then == !=, then the relations, and ! / not strongest
-LEVEL = {'forall': 1, 'exists': 1, 'or': 2, 'xor': 2, 'imply': 2, 'and': 3, 'eq': 4, 'neq': 4, 'not': 9}
+LEVEL = {'forall': 1, 'exists': 1, 'dforall': 1, 'dexists': 1, 'or': 2, 'xor': 2, 'imply': 2, 'and': 3, 'eq': 4, 'neq': 4, 'not': 9}
 
 
 def render_min(f, rng):
@@ -45,6 +49,8 @@ def render_min(f, rng):
     if h == 'not':
         a, la = render_min(f[1], rng)
         return '%s%s' % (rng.choice(['!', 'not ']), a if la >= 9 else '(%s)' % a), 9
+    if h in ('dforall', 'dexists'):
+        return '%s (p : DT) (%s)' % (h[1:], render_min(f[1], rng)[0]), 1
     return '%s (q : int[0,1]) %s' % (h, render_min(f[1], rng)[0]), 1
 
 
@@ -61,11 +67,13 @@ def render(f, rng):
         return '(%s) %s (%s)' % (render(f[1], rng), sym, render(f[2], rng))
     if h == 'not':
         return '%s(%s)' % (rng.choice(['!', 'not ']), render(f[1], rng))
+    if h in ('dforall', 'dexists'):
+        return '%s (p : DT) (%s)' % (h[1:], render(f[1], rng))
     return '%s (q : int[0,1]) (%s)' % (h, render(f[1], rng))
 
 
 def sx(f):
-    return '(' + ' '.join(sx(x) if isinstance(x, tuple) else x for x in f) + ')'
+    return '(' + ' '.join(sx(x) if isinstance(x, tuple) else {'dforall': 'forall', 'dexists': 'exists'}.get(x, x) for x in f) + ')'
 
 
 OPCLS = {'i': 'CInt', 'd': 'CDouble', 'x': 'CClock', 'xy': 'CDiff'}
@@ -154,6 +162,15 @@ def check(run):
     forms = list(dict.fromkeys(forms))
     # every pair of connectives nested to the left and to the right over clock / clock-free atoms, written with only the parentheses the language's
     # precedence table requires (x < 5 || b xor c is (x < 5 || b) xor c): the text decides the tree, the tree decides acceptance
+    for u in ('dforall', 'dexists'):
+        for a in reps:
+            forms.append((u, a))
+        for c1 in ('and', 'or', 'imply'):
+            for a in reps[:4]:
+                for b in reps[:4]:
+                    forms.append((u, (c1, a, b)))
+                    forms.append((c1, (u, a), b))
+    forms = list(dict.fromkeys(forms))
     nplain = len(forms)
     A3 = [('bool',), ('cmp', 'lt', 'x', 'i')]
     for c1 in binc:
@@ -195,10 +212,10 @@ def check(run):
         return conjs(f[1]) + conjs(f[2]) if f[0] == 'and' else [f]
     oldtexts = {}
     for k, f in enumerate(forms):
-        if not has(f, ('xor', 'forall', 'exists')) and (k % 3 == 0 or k >= nplain):
+        if not has(f, ('xor', 'forall', 'exists', 'dforall', 'dexists')) and (k % 3 == 0 or k >= nplain):
             oldtexts[k] = ', '.join(render_min(c, rng)[0] for c in conjs(f))
-            j.case('o%d' % k, old=True).model('xml', XML % ('true', esc(oldtexts[k]))).dump('errors').end()
-            j.case('p%d' % k, old=True).model('xml', XML % (esc(oldtexts[k]), 'true')).dump('errors').end()
+            j.case('o%d' % k, old=True).model('xml', XML_OLD % ('true', esc(oldtexts[k]))).dump('errors').end()
+            j.case('p%d' % k, old=True).model('xml', XML_OLD % (esc(oldtexts[k]), 'true')).dump('errors').end()
     rr = vlib.run_jobs(j)
     fmism, nacc, nrej, nknown = [], 0, 0, 0
     samples = []
